@@ -43,6 +43,11 @@ Ltac sendack_facts I :=
       specialize (X eq_refl); destruct X as (? & ? & ?)
   end.
 
+Ltac use_eqs :=
+  repeat match goal with
+  | Hpc : pc (th _ _) = _ |- _ => rewrite Hpc in *
+  | Hq : qu _ _ = _ |- _ => rewrite Hq in *
+  end.
 Lemma step_s1 : forall s lb s', InvE s -> lstep s lb = Some s' ->
   forall c p, helper c -> parent c = Some p ->
     se (th s' p) = se (th s' c) + stops (qu s' c) + b2n (owes (pc (th s' p)) c).
@@ -51,7 +56,7 @@ Proof.
   pose proof (e_s1 _ _ _ I c p Hc Hp) as S1.
   assert (Hc0 : c <> 0) by (unfold WorkersInv.helper in Hc; lia).
   destruct (parent_le c p Hc Hp) as (HpN & Hpc).
-  step_inv_fine H; crunch; rewrite ?stops_app, ?stops_purge, ?stops_cons in *; cbn [is_stop owes b2n stops filter length] in *; try lia.
+  step_inv_fine H; crunch; use_eqs; rewrite ?stops_app, ?stops_purge, ?stops_cons in *; cbn [is_stop owes b2n stops filter length] in *; try lia.
   Show.
 Abort.
 End P.
